@@ -48,6 +48,7 @@ type c13member struct {
 	closeInRebalance       bool
 	rebalanceAfterShutdown bool
 	lastPubT               int64
+	lastBRST               int64 // start of the last rebalance before Close()
 	pubs                   int
 	quietClose             bool // Close() arrived with no rebalance under way and no notification recent enough to have one pending
 	shutStopN              int  // quietClose: the stream stop that belongs to the shutdown itself
@@ -127,6 +128,9 @@ func checkC13Rules(run *Run, res *Result) {
 				get(e.M).ackPos, get(e.M).nondocPos = map[int]uint64{}, map[int]uint64{}
 			case "BeforeRebalanceStart":
 				get(e.M).rebalancing = true
+				if mm := get(e.M); mm.closeN == 0 {
+					mm.lastBRST = e.T
+				}
 				if mm := get(e.M); mm.shutStopN > 0 && mm.pubAfterStop > 0 && !mm.apiRebalance {
 					// nothing was pending when Close() arrived and nothing was announced until the shutdown began to stop the
 					// streams: this rebalance stems from a notification published afterwards
@@ -270,7 +274,10 @@ func checkC13Rules(run *Run, res *Result) {
 			}
 			mm := get(e.M)
 			mm.closeN, mm.closeT = e.N, e.T
-			mm.quietClose = !mm.rebalancing && (mm.pubs == 0 || mm.lastPubT+cfg.RebalanceDelay+1_000_000_000 < e.T)
+			// quiet: no rebalance under way, and neither a notification nor the start of a rebalance (a fired timer may
+			// have re-armed itself) recent enough for a timer to be pending
+			mm.quietClose = !mm.rebalancing && (mm.pubs == 0 || mm.lastPubT+cfg.RebalanceDelay+1_000_000_000 < e.T) &&
+				(mm.lastBRST == 0 || mm.lastBRST+cfg.RebalanceDelay+1_000_000_000 < e.T)
 			mm.savesAtClose = openCommits[e.M]
 			mm.closeInRebalance = mm.rebalancing
 			switch {
